@@ -172,6 +172,7 @@ func cmdCheck(args []string) int {
 	}
 	t0 := time.Now()
 	id := opts.id
+	interferenceOn = propMeta[id].Interference
 	work := filepath.Join(outDir(), "work")
 	os.MkdirAll(work, 0o755)
 	var dir string
@@ -728,10 +729,17 @@ type propInfo struct {
 	// Include / Exclude: regular expressions over "Fn::obligation-name" selecting which obligations of
 	// the functions tagged with this property belong to this property's claim.
 	Include string
+	// Interference: acquiring a lock makes the fields it guards unknown (other goroutines may have
+	// run while it was not held). Only the properties that are about concurrent use turn it on;
+	// the others state sequential contracts.
+	Interference bool
 	Exclude string
 }
 
 var propMeta = map[string]propInfo{}
+
+// interferenceOn: see propInfo.Interference (set per check run, also in worker processes)
+var interferenceOn bool
 
 func init() {
 	data, err := os.ReadFile(filepath.Join(verifDir(), "props.json"))
